@@ -1,6 +1,7 @@
 (** Property C07: the theorems about the model (all except the witnesses). *)
 From Coq Require Import NArith List Bool Lia ZifyN ZifyBool.
 From RsM Require Import Model.Lifecycle Model.LifecycleSpec Proofs.LifecycleFacts Proofs.LifecycleInv.
+(* -- *)
 Import ListNotations.
 Open Scope N_scope.
 
